@@ -152,6 +152,10 @@ def s_sqrt(x):
         return x.sqrt()
     if isinstance(x, SC):
         raise Unsupported("complex sqrt")
+    if ctx.cur() is not None and is_num(x) and x >= 0:
+        # sqrt(2) etc. stay exact (an algebraic number), not the rounded double
+        from fractions import Fraction
+        return ctx.sqrt(SR(toreal(rv(Fraction(x) if not isinstance(x, Fraction) else x))))
     return rnp.sqrt(x)
 
 
@@ -222,8 +226,8 @@ def _elem(f):
     return g
 
 
-class _FInfo:
-    pass
+from fractions import Fraction as _Fr
+RAD2DEG = _Fr(180) / _Fr(_math.pi)   # pi is the double nearest to pi, taken as an exact rational throughout
 
 
 # ----------------------------------------------------------------------------- numpy shim
@@ -387,13 +391,13 @@ class NumpyShim:
             def f(e):
                 e = SC.lift(e)
                 r = ctx.ufun("atan2", (e.im, e.re))
-                return r * (180.0 / rnp.pi) if deg else r
+                return r * RAD2DEG if deg else r
             return _map(f, a) if isinstance(a, rnp.ndarray) else f(a)
         return rnp.angle(a, deg=deg)
 
     def rad2deg(self, a):
         if has_sym(a):
-            return a * (180.0 / rnp.pi)
+            return a * RAD2DEG
         return rnp.rad2deg(a)
 
     degrees = rad2deg
